@@ -601,13 +601,18 @@ def check(run):
     for i in range(80000 if thorough else 3000):
         cases.append(('s%d' % i, gen_ops(rng)))
     run_heap_cases(run, cases, impl_exe, model_exe, 'heap_op_sequences')
+    if thorough:
+        # the collector's debug_assert!(sub_obj.mark.get()) is a Panic site of the model proved unreachable:
+        # run a slice of the scripts on the dev profile (debug assertions and overflow checks on)
+        dev_exe = vlib.build_harness('dev')
+        run_heap_cases(run, corpus_cases() + cases[:8000], dev_exe, model_exe, 'heap_dev_profile')
     tick('heaps done')
     # (2) schedule independence, (3) baseline
     ui = ui_programs(vlib.REPO)
     gen = gen_programs(rng, 400 if thorough else 44, (5, 40, 120, 400, 1200) if thorough else (5, 40, 120, 400))
     cp = corpus_programs()
     progs = cp + gen + (ui if thorough else rng.sample(ui, min(len(ui), 80)))
-    check_schedules(run, impl_exe, progs, rng, 'sched_programs', 200000 if thorough else 8000)
+    check_schedules(run, impl_exe, progs, rng, 'sched_programs', 60000 if thorough else 8000)
     tick('schedules done')
     check_baseline(run, impl_exe, cp + gen + [p for p in ui if p[0].startswith('pass')][:(10 ** 6 if thorough else 30)], rng, 'baseline_batches', 10 ** 7 if thorough else 400000)
     tick('baseline done')
